@@ -36,6 +36,16 @@ TARGETS = {
 }
 
 
+# the queue worker of the resource limiter is preempted right after it obtained the execution permit for a queued
+# request: the explorer may deliver environment events (the caller cancels, the queue timeout fires) before it goes on
+PARK_POINTS = {
+    'protocol/rpcprovider/resource_limiter.go': [
+        ("if err := sem.Acquire(qr.ctx, 1); err != nil {\n\t\t\tqr.result <- err\n\t\t\tcontinue\n\t\t}\n",
+         "\t\tverifclock.Park(\"worker-holds-permit\")\n"),
+    ],
+}
+
+
 def die(msg):
     print('overlaygen_events: ' + msg, file=sys.stderr)
     sys.exit(1)
@@ -68,6 +78,15 @@ def main():
         n = int(r.stdout.split()[0])
         if n != len(imports):
             die('%s: expected %d rewritten imports %s, got %d' % (src, len(imports), imports, n))
+        # preemption points: text inserted after an exact anchor of the rewritten file (must match exactly once)
+        for (anchor, insert) in PARK_POINTS.get(rel, []):
+            new = open(dst).read()
+            if new.count(anchor) != 1:
+                die('park anchor %r found %d times in %s' % (anchor, new.count(anchor), src))
+            new = new.replace(anchor, anchor + insert)
+            if ('"%s/clock"' % MOD) not in new:
+                new = new.replace('import (', 'import (\n\tverifclock "%s/clock"' % MOD, 1)
+            open(dst, 'w').write(new)
         replace[os.path.join(REPO, rel)] = dst
         total += n
     for virt, shim in [('clock/clock.go', 'clock.go.txt'), ('time/time.go', 'time.go.txt'), ('context/context.go', 'context.go.txt')]:
